@@ -177,6 +177,83 @@ func c12AgreementCase(depth int, args map[string]any, desc string) (sig, msg str
 	return "", ""
 }
 
+// c12ClientOps: every message the SDK client's session API produces is accepted by the SDK's own HTTP
+// handlers: no POST is answered with a 4xx, and the session is still usable afterwards.
+func c12ClientOps(stateless bool, op string) (obs, sig, msg string) {
+	ctx := context.Background()
+	desc := fmt.Sprintf("stateless=%v op=%s", stateless, op)
+	s := NewServer(&Implementation{Name: "srv", Version: "1"}, &ServerOptions{Logger: quietLogger,
+		SubscribeHandler:   func(context.Context, *SubscribeRequest) error { return nil },
+		UnsubscribeHandler: func(context.Context, *UnsubscribeRequest) error { return nil },
+		CompletionHandler: func(context.Context, *CompleteRequest) (*CompleteResult, error) {
+			return &CompleteResult{Completion: CompletionResultDetails{Values: []string{}}}, nil
+		},
+	})
+	AddTool(s, &Tool{Name: "t"}, func(ctx context.Context, r *CallToolRequest, in map[string]any) (*CallToolResult, any, error) {
+		return &CallToolResult{}, nil, nil
+	})
+	s.AddPrompt(&Prompt{Name: "p"}, func(context.Context, *GetPromptRequest) (*GetPromptResult, error) { return &GetPromptResult{}, nil })
+	s.AddResource(&Resource{URI: "file:///r", Name: "r"}, func(context.Context, *ReadResourceRequest) (*ReadResourceResult, error) {
+		return &ReadResourceResult{Contents: []*ResourceContents{{URI: "file:///r", Text: "x"}}}, nil
+	})
+	h := NewStreamableHTTPHandler(func(*http.Request) *Server { return s }, &StreamableHTTPOptions{Stateless: stateless, Logger: quietLogger})
+	hx := &hxTransport{Handler: h}
+	client := NewClient(&Implementation{Name: "cli", Version: "1"}, &ClientOptions{Logger: quietLogger})
+	cs, err := client.Connect(ctx, &StreamableClientTransport{Endpoint: "http://example.test/mcp", HTTPClient: hx.client(), MaxRetries: -1}, nil)
+	if err != nil {
+		return "", "c12 client-ops connect", fmt.Sprintf("connect: %v [%s]", err, desc)
+	}
+	defer cs.Close()
+	var opErr error
+	switch op {
+	case "ListTools":
+		_, opErr = cs.ListTools(ctx, nil)
+	case "CallTool":
+		_, opErr = cs.CallTool(ctx, &CallToolParams{Name: "t", Arguments: map[string]any{}})
+	case "ListPrompts":
+		_, opErr = cs.ListPrompts(ctx, nil)
+	case "GetPrompt":
+		_, opErr = cs.GetPrompt(ctx, &GetPromptParams{Name: "p"})
+	case "ListResources":
+		_, opErr = cs.ListResources(ctx, nil)
+	case "ListResourceTemplates":
+		_, opErr = cs.ListResourceTemplates(ctx, nil)
+	case "ReadResource":
+		_, opErr = cs.ReadResource(ctx, &ReadResourceParams{URI: "file:///r"})
+	case "Complete":
+		_, opErr = cs.Complete(ctx, &CompleteParams{Ref: &CompleteReference{Type: "ref/prompt", Name: "p"}, Argument: CompleteParamsArgument{Name: "a", Value: "v"}})
+	case "NotifyProgress":
+		opErr = cs.NotifyProgress(ctx, &ProgressNotificationParams{ProgressToken: "tok", Progress: 1})
+	case "Subscribe+Unsubscribe":
+		if opErr = cs.Subscribe(ctx, &SubscribeParams{URI: "file:///r"}); opErr == nil {
+			synctest.Wait()
+			opErr = cs.Unsubscribe(ctx, &UnsubscribeParams{URI: "file:///r"})
+		}
+	case "Ping":
+		opErr = cs.Ping(ctx, nil)
+	case "SetLoggingLevel":
+		opErr = cs.SetLoggingLevel(ctx, &SetLoggingLevelParams{Level: "debug"})
+	}
+	synctest.Wait()
+	version := cs.InitializeResult().ProtocolVersion
+	// Ping and SetLoggingLevel do not exist under 2026-07-28: the API call fails, and how the refusal is
+	// conveyed is not this property's business - the session must survive it all the same
+	removed := version >= "2026-07-28" && (op == "Ping" || op == "SetLoggingLevel")
+	for _, x := range hx.exchanges() {
+		if x.Method == "POST" && x.Status >= 400 && x.Status < 500 && !removed {
+			return "", fmt.Sprintf("c12 client-ops client-message-refused %s stateless=%v", op, stateless), fmt.Sprintf("negotiated %s: a POST produced by ClientSession.%s was answered %d by the SDK's own handler (body %.200q); the operation returned %v [%s]", version, op, x.Status, x.ReqBody, opErr, desc)
+		}
+	}
+	if _, err := cs.ListTools(ctx, nil); err != nil {
+		return "", fmt.Sprintf("c12 client-ops session-unusable-after %s stateless=%v", op, stateless), fmt.Sprintf("negotiated %s: after ClientSession.%s (returned %v) the session is unusable: %v [%s]", version, op, opErr, err, desc)
+	}
+	cls := "ok"
+	if opErr != nil {
+		cls = "api-error" // e.g. a method the negotiated protocol does not have
+	}
+	return fmt.Sprintf("%s %s", version, cls), "", ""
+}
+
 // ---------- (a) soundness
 
 type c12Req struct {
@@ -685,5 +762,28 @@ func TestVerifC12(t *testing.T) {
 	}
 	agree := env.NewCases(res, "client-server-agreement")
 	c12Agreement(t, agree)
+	cops := env.NewCases(res, "client-session-api-agreement")
+	for _, stateless := range []bool{true, false} {
+		for _, op := range []string{"ListTools", "CallTool", "ListPrompts", "GetPrompt", "ListResources", "ListResourceTemplates", "ReadResource", "Complete", "NotifyProgress", "Subscribe+Unsubscribe", "Ping", "SetLoggingLevel"} {
+			idx, mine := cops.Next()
+			if !mine {
+				continue
+			}
+			var obs, sig, msg string
+			func() {
+				defer func() {
+					if r := recover(); r != nil {
+						sig, msg = "c12 client-ops panic-or-leak", fmt.Sprintf("%v [stateless=%v op=%s]", r, stateless, op)
+					}
+				}()
+				synctest.Test(t, func(t *testing.T) { obs, sig, msg = c12ClientOps(stateless, op) })
+			}()
+			if sig != "" {
+				cops.Violate(idx, sig, msg, 2)
+				continue
+			}
+			cops.Record(idx, obs, 2, func() string { return fmt.Sprintf("stateless=%v op=%s", stateless, op) })
+		}
+	}
 	env.Finish(res)
 }
